@@ -52,16 +52,31 @@ def r1(ctx):
     repo = ctx.repo
     f = ctx.fn(repo.func(WSGI + ".default_environ"))
     REQ = f.params[0]
-    d = _dict_literal(f)
-    want = {"REQUEST_METHOD": "%s.method" % REQ, "QUERY_STRING": "%s.query" % REQ, "RAW_URI": "%s.uri" % REQ, "wsgi.input": "%s.body" % REQ}
-    for k, w in want.items():
-        ctx.check("C15.R1", k in d and norm(d[k]) == w, key(f, "prov|" + k), site(f, text=k), "%s is `%s`, the gateway contract requires `%s`" % (k, norm(d[k]) if k in d else None, w), "%s <- %s" % (k, w))
-    sp = d.get("SERVER_PROTOCOL")
-    txt = norm(sp) if sp is not None else ""
-    sh = fmt_shape(sp) if sp is not None else None
-    ok_sp = sh is not None and sh[0] in ("HTTP/{}", "HTTP/{}.{}") and all("%s.version" % REQ in norm(v) for v in sh[1]) and \
-        (sh[0] == "HTTP/{}.{}" or "'.'.join" in norm(sh[1][0]))
-    ctx.check("C15.R1", ok_sp, key(f, "prov|SERVER_PROTOCOL"), site(f, text="SERVER_PROTOCOL"), "SERVER_PROTOCOL is `%s`, required 'HTTP/' major '.' minor of req.version" % txt, "SERVER_PROTOCOL <- HTTP/major.minor")
+    # evaluated: default_environ on a concrete request -- each variable is exactly the request field the gateway contract names
+    from ..absint import SpecObj
+    g = f.cfg
+    rets = [n for n in g.stmts(ast.Return)]
+    ctx.need(rets, "C15.R1: default_environ does not return the environ")
+    rows = []
+    for ver in ((1, 1), (1, 0), (2, 0)):
+        BODY_ = SpecObj(_tag="body")
+        req = SpecObj(method="PropFind", query="a=1&b=%20", uri="/p%41th;x?a=1&b=%20", body=BODY_, version=ver, path="/p%41th;x", fragment="")
+
+        def atom_of(e):
+            if isinstance(e, ast.Call) and (repo.call_target(f.module, f, e) or "").endswith(".base_environ"):
+                return "BASE_ENV"
+            return None
+        ex = Explorer(f, atom_of=atom_of)
+        outs = ex.run(g.entry, {ex.key_of(ast.Name(id=REQ, ctx=ast.Load())): req, "BASE_ENV": {"wsgi.version": (1, 0)}})
+        want = {"REQUEST_METHOD": "PropFind", "QUERY_STRING": "a=1&b=%20", "RAW_URI": "/p%41th;x?a=1&b=%20", "SERVER_PROTOCOL": "HTTP/%d.%d" % ver, "wsgi.input": BODY_}
+        for o in outs:
+            env = o.detail if o.kind == "return" and isinstance(o.detail, dict) else None
+            for k, w in want.items():
+                got = env.get(k, "<missing>") if env is not None else "<undetermined>"
+                rows.append({"version": list(ver), "variable": k, "value": str(got), "required": str(w)})
+                ctx.check("C15.R1", got is w or (not isinstance(w, SpecObj) and got == w), key(f, "prov|%s|%s" % (k, ver)), site(f, text=k),
+                          "for a %s request with method PropFind, target /p%%41th;x?a=1&b=%%20 the environ has %s = %r, the gateway contract requires %r" % ("HTTP/%d.%d" % ver, k, got, w), "%s <- request" % k)
+    ctx.table("C15.R1 request-line variables", rows[:15])
     # request fields themselves
     # method / uri / version / path / query are what the request line says: evaluated (request-line table of C01.R3
     # with the field clause)
